@@ -1333,6 +1333,12 @@ impl CodeGenerator {
         }
     }
 
+    /// Verification hook: the partition-safety guard consulted by `execute_with_config`.
+    #[cfg(inputlayer_verif)]
+    pub fn verif_contains_join(ir: &IRNode) -> bool {
+        Self::contains_join(ir)
+    }
+
     /// Execute with the number of workers equal to CPU cores
     pub fn execute_parallel(&self, ir: &IRNode) -> Result<Vec<Tuple>, String> {
         self.execute_with_config(ir, ExecutionConfig::all_cores())
